@@ -16,7 +16,7 @@ and forgets *only* that peer (no bulk operation on a shared container; QueueInne
 ticket order are never disturbed (C06 R06.1 / R06.5 re-evaluated).
 Does NOT decide descriptor counts, kernel-level release or "other peers unaffected" at run time."""
 from ..sym import show, walk_expr
-from ..common import short, trait_impls, coroutine_of
+from ..common import short, trait_impls, coroutine_of, strip_view
 from .. import pathq
 from ..report import Report
 from . import fq, tables
@@ -124,7 +124,9 @@ def run(ctx, f, rep):
                 tgt = None
                 if calls:
                     k = calls[0].args[1] if len(calls[0].args) > 1 else None
-                    same_item = k is not None and any(x == err_item for x in walk_expr(k)) and any(isinstance(x, tuple) and x and x[0] == "field" and x[1] == err_item and x[2] in (0, "0") for x in walk_expr(k))
+                    # the argument IS the key (field .0) of the item that carried the error (through borrows / clones only)
+                    kk = strip_view(k) if k is not None else None
+                    same_item = kk is not None and kk[0] == "field" and kk[1] == err_item and kk[2] in (0, "0")
                     ok = same_item
                     r = (calls[0].fn or {}).get("resolved") or {}
                     tgt = r.get("path")
